@@ -165,6 +165,19 @@ def _trie_task(task, p):
         p.sample(sub, {"word": [names[t] for t in idx[333]], "autocorr": float(got[333]), "reference": float(ref[333])})
 
 
+def _offset_task(task, p):
+    """Large level, small spread: values 30000 + {0,1,5}.  Sums of squares are ~1e9 per cell; any single-precision
+    product or accumulator shows here and nowhere else."""
+    n, nd = task
+    idx = sse.word_indices(4, n)
+    valid = idx != 0
+    vals = sse.render(idx, [nd, 30000, 30001, 30005]).astype(np.int64)
+    check_words(vals, valid, nd, p, "large_offset", full=True)
+    p.count("large_offset", evaluations=idx.shape[0], states=idx.shape[0], traces_validated_against_impl=idx.shape[0], nontrivial=idx.shape[0])
+    if n == 5:
+        p.sample("large_offset", {"alphabet": ["ND", 30000, 30001, 30005], "n": n})
+
+
 def long_records(ctx, nd):
     """Deterministic 900-step records with contiguous outages covering 10..90 %."""
     sub = "long_records"
@@ -218,6 +231,19 @@ def accessor(ctx, letters, nd):
             for j in np.nonzero(bad)[0][:3]:
                 ctx.violation(sub, {"accessor": "autocorr", "variant": name, "word": vals[j].tolist()}, {"kind": "acc", "variant": name},
                               f"hdc.algo.autocorr() [{name}] pixel {vals[j].tolist()} -> {got[j]:.6f}, reference {ref[j]:.6f}")
+        # nodata = 0 given as attribute (a falsy marker): zeros are gaps, not observations
+        idz = sse.word_indices(4, n)
+        valz = sse.render(idz, [0, 1, 2, 5]).astype("int16")
+        refz, okz = ref_autocorr_fast(valz.astype(np.int64), idz != 0)
+        dz = xr.DataArray(valz.reshape(64, 64, n), dims=("y", "x", "time"), coords={"time": time}, attrs={"nodata": 0})
+        for name, da in (("nodata=0 yxt numpy", dz), ("nodata=0 tyx numpy", dz.transpose("time", "y", "x")),
+                         ("nodata=0 yxt dask", dz.chunk({"y": 16, "x": 64, "time": -1})), ("nodata=0 tyx dask", dz.transpose("time", "y", "x").chunk({"time": -1, "y": 32, "x": 16}))):
+            got = np.asarray(da.hdc.algo.autocorr().transpose("y", "x").values).reshape(N).astype(np.float64)
+            ctx.count(sub, evaluations=N, nontrivial=int(okz.sum()) if name.endswith("yxt numpy") else 0)
+            bad = np.abs(got - refz) > 1e-5
+            for j in np.nonzero(bad)[0][:3]:
+                ctx.violation(sub, {"accessor": "autocorr", "variant": name, "word": valz[j].tolist()}, {"kind": "acc", "variant": name},
+                              f"hdc.algo.autocorr() [{name}] pixel {valz[j].tolist()} (0 = nodata) -> {got[j]:.6f}, reference {refz[j]:.6f}")
         # float data with NaN and no nodata attribute
         vf = np.where(valid, vals, np.nan).astype("float32")
         daf = xr.DataArray(vf.reshape(64, 64, n), dims=("y", "x", "time"), coords={"time": time})
@@ -240,6 +266,7 @@ def run(ctx):
     o.autocorr_tyx(np.zeros((3, 1, 1), "float32"))
     maxn = 10 if ctx.thorough() else 9
     ctx.pmap(_trie_task, [(n, letters, nd) for n in range(maxn, 2, -1)])
+    ctx.pmap(_offset_task, [(n, -9999) for n in range(8 if ctx.thorough() else 7, 2, -1)])
     ctx.note("alphabet", ["ND"] + letters)
     ctx.note("nodata", nd)
     ctx.note("max_len", maxn)
